@@ -200,6 +200,12 @@ def term_ops(t, acc=None):
     return acc
 
 
+def sig(t):
+    if not t.get('in'):
+        return t['op']
+    return '%s(%s%s)<%s>' % (t['op'], t['a'], t['f'], ','.join(sig(x) for x in t['in']))
+
+
 def ill_formed(case_or_reset, stims):
     def bad_script(t):
         if t['op'] == 'cold':
@@ -240,6 +246,19 @@ def matches(kf, prop, flag, root, cfg, stims):
     if 'sbj_kind_any' in m and not ('subject' in ops and any(k in m['sbj_kind_any'] for k in cfg.get('sbj', []))):
         return False
     if 'conn_kind_any' in m and not any(c['kind'] in m['conn_kind_any'] for c in cfg.get('conn', [])):
+        return False
+    if 'conn_src_any' in m and not any(c['term']['op'] in m['conn_src_any'] for c in cfg.get('conn', [])):
+        return False
+    if 'stim_seq' in m:
+        want = list(m['stim_seq'])
+        for x in stims:
+            st = x['st']
+            tok = st['k'] + (':' + st['e'] if st.get('e') else '')
+            if want and (want[0] == tok or want[0] == st['k']):
+                want.pop(0)
+        if want:
+            return False
+    if 'stuck_site_any' in m and not any(any(x in s.get('site', '') for x in m['stuck_site_any']) for s in stims if s.get('fin') == 'stuck'):
         return False
     if 'fin_any' in m and not any(s.get('fin') in m['fin_any'] for s in stims):
         return False
@@ -347,6 +366,16 @@ def run_seq_check(prop, tier, flags, plan, seed, design_ref, extra_assumptions=N
             with open(path, 'w') as f:
                 json.dump(body, f, indent=1)
             out_lines.append('VIOLATION property=%s replay=%s' % (prop, path))
+        # compact inventory of every new violation (only the first 50 get a replay file)
+        vsum = {}
+        for flag, v, reset, stims in violations:
+            fins = sorted(set(x['fin'] for x in stims if x['fin'] != 'ok'))
+            key = '%s %s sbj=%s conn=%s fin=%s' % (flag, sig(reset['root']), ','.join(reset['cfg'].get('sbj', [])) if 'subject' in term_ops(reset['root']) else '-',
+                                                  ','.join(c['kind'] + ':' + sig(c['term']) for c in reset['cfg'].get('conn', [])) or '-', ','.join(fins) or '-')
+            vsum[key] = vsum.get(key, 0) + 1
+        if os.environ.get('VERIF_VERBOSE'):
+            for k2, c2 in sorted(vsum.items()):
+                print('  new-violation-class %d x %s' % (c2, k2))
         for kid, (cnt, kf, ex) in sorted(kf_hits.items()):
             flag, v, reset, stims = ex
             with open('%s/replays/%s/%s.json' % (V, prop, kid), 'w') as f:
@@ -372,7 +401,7 @@ def run_seq_check(prop, tier, flags, plan, seed, design_ref, extra_assumptions=N
                 'cases_agreeing_with_L1_model': tot['agree'], 'cases_differing_from_L1_model': tot['differ'],
                 'predicted_stuck_or_budget_verdicts_confirmed': tot['nonok_confirmed'],
                 'operators_exercised': ops, 'monitors': flags,
-                'l2_rejections_known': {k: c[0] for k, c in kf_hits.items()}, 'l2_rejections_new': len(violations), 'model_drift_traces': drift,
+                'l2_rejections_known': {k: c[0] for k, c in kf_hits.items()}, 'l2_rejections_new': len(violations), 'new_violation_classes': vsum, 'model_drift_traces': drift,
             },
             'assumptions': ['bounded: histories of at most max_stimuli stimuli, items from {0,1,2}, parameters as listed in spec/RxSeqMC.tla',
                             'the facade (rt/arx_vstd) behaves like std::sync / std::thread for a single logical thread',
